@@ -46,6 +46,33 @@ def extremes(rng):
     return "X.extract", ("extract:%d:%d" % (hi, lo), x)
 
 
+def extreme_constant(rng):
+    """a rule-directed tree (the shapes the simplifiers look for) with one of its constants replaced by a boundary value of its
+    width: the guards of a simplifier must hold for every constant, not only for the ones that make the pattern meaningful"""
+    name, tree = G.rule_directed(rng)
+    paths = []
+
+    def walk(t, path):
+        if isinstance(t, tuple):
+            if t[0] == "bvv":
+                paths.append(path)
+            else:
+                for i, c in enumerate(t[1:], 1):
+                    walk(c, path + (i,))
+    walk(tree, ())
+    if not paths:
+        return name, tree
+    pth = rng.choice(paths)
+
+    def put(t, path):
+        if not path:
+            w = t[2]
+            big = [(1 << w) - 1, 1 << (w - 1), (1 << w) - 2, w, w + 1, w - 1, (1 << w) - w, (1 << w) - w + 1, 1 << min(w - 1, 62), 1 << min(w - 1, 31), 0, 1]
+            return ("bvv", rng.choice(big) % (1 << w), w)
+        return t[:path[0]] + (put(t[path[0]], path[1:]),) + t[path[0] + 1:]
+    return name + "+extreme-constant", put(tree, pth)
+
+
 def fp_str_stream(ctx, rng, kinds, dist):
     """crash-freedom of eager folding on concrete floats (NaN, infinities, subnormals, huge magnitudes, every rounding mode and
     conversion size) and strings (metacharacters, surrogates, empty, long); oracle only"""
@@ -152,6 +179,8 @@ def run(ctx):
                 yield G.rule_directed(rng)
             for _ in range(n3):
                 yield G.random_tree(rng)
+            for _ in range(n2 // 2):
+                yield extreme_constant(rng)
         for name, tree in stream():
             ctx.count()
             dist[name] += 1
